@@ -82,6 +82,15 @@ Theorem reset_exact : forall c n,
               ~ (owned_res c = [] /\ owned_acc c = [])
   end.
 Proof. exact reset_exact_pf. Qed.
+(* a reconnect of the serving service publishes that same system.reset (reset_event of the owned lists,
+   see reset_exact) and then calls the OnReconnect callback; a disconnect only calls OnDisconnect; a
+   service that is not started refuses the reset, publishes nothing and still calls the callback *)
+Theorem reconnect_exact : forall c,
+  handle_reconnect c (Some (served_ownership c)) =
+    (match reset_event (owned_res c) (owned_acc c) with Some p => [EReset p] | None => [] end) ++ [EOnReconnect] /\
+  handle_disconnect = [EOnDisconnect] /\
+  handle_reconnect c None = [ERefused; EOnReconnect].
+Proof. exact reconnect_exact_pf. Qed.
 Theorem no_resources : forall c, subscribe c = NoResources <-> (owned_res c = [] /\ owned_acc c = []).
 Proof. exact no_resources_pf. Qed.
 
